@@ -39,13 +39,14 @@
   whose message it handles, the broker only the publisher (one      C04_publish_ends_only_sender,
   exact case), a message handler only the sender                    C04_message_ends_only_sender
   [WP-C] NOTHING EVER ENDS THE META SESSION (the theorem that       C04_meta_never_ends,
-  was false before the fix of audit-C §0): in every state           C04_meta_safe_preserved
-  reachable by inputs not using the meta key as a client key
-  (`ReachableK`) it is not in `ending`, no departure of it is
-  pending or deferred, its pending answers / retries cannot take
-  an abort branch (`MetaSafe`); kept by every atomic action
-  [WP-C] … over ALL inputs of the model's `Op` type the statement   C04_meta_never_ends_full (def),
-  is false: `.drop metaKey` (model artefact, not a router input)    C04_meta_never_ends_full_fails
+  was false before the fix of audit-C §0): in EVERY reachable       C04_meta_safe_preserved,
+  state (`Realm.Reachable`, any history of inputs) it is not in     C04_meta_never_ends_full (def),
+  `ending`, no departure of it is pending or deferred, its          C04_meta_never_ends_full_holds,
+  pending answers / retries cannot take an abort branch             C04_meta_never_ends_restricted
+  (`MetaSafe`); kept by every atomic action.  (`join`/`drop`
+  under the meta session's key are no-ops of the model.)
+  [WP-C] what every reachable realm satisfies about session keys    C04_reachable_keys
+  (Nexus/L2/Proofs/RealmKeys.lean)
   [WP-C] a protocol violation AS AN INPUT (`stepOp (.msg k m)`,     C04_violation_input
   through the busy/ending gate and the authorization gate): only
   the sender's departure is queued; refused by an Authorizer ⇒ the
@@ -74,6 +75,7 @@
 -/
 import Nexus.L2.Proofs.RealmIsolation
 import Nexus.L2.Proofs.WpCIso
+import Nexus.L2.Proofs.RealmKeys
 
 namespace Nexus.C04
 open Nexus.L2 Nexus.L2.Realm Nexus.Gen.N Nexus.L2.WpC
@@ -299,9 +301,10 @@ theorem C04_message_ends_only_sender (r : Realm) (s : Session) (m : Msg) :
     obtain ⟨req, opts, args, kw, hm, rfl⟩ := pxs x hx
     exact ⟨rfl, req, opts, args, kw, hm⟩
 
-/-- NOTHING EVER ENDS THE META SESSION.  In every state reachable by inputs that do not use the meta
-    session's key as a client key (`ReachableK`: no `join`/`drop` names `metaKey`; session keys are the
-    model's names, the router draws random ids different from the meta id): the meta session is not in
+/-- NOTHING EVER ENDS THE META SESSION.  In EVERY reachable state (`Realm.Reachable`: any history of inputs
+    whatsoever; a `join` under the meta session's key or the key of an attached client and a `drop` of a key
+    that names no attached client cannot occur — session ids are drawn by the router, only an attached client
+    has a transport to lose — and are no-ops of the model): the meta session is not in
     `ending`, no departure of it is pending or deferred, no client is stored under its key, it announces
     the publisher payload-passthru feature, every answer it has pending is a `YIELD` with empty options or
     an `ERROR(INVOCATION)`, and a retried YIELD of it carries no `ppt_scheme` (`MetaSafe`).  So the realm
@@ -310,7 +313,7 @@ theorem C04_message_ends_only_sender (r : Realm) (s : Session) (m : Msg) :
     This is the theorem that is FALSE for the router before the fix of audit-C §0 (a testament with
     `ppt_scheme` made the meta session abort itself: `handlePublish` by a meta session without the
     feature appends `metaKey` to `ending`, see the example below). -/
-theorem C04_meta_never_ends (cfg : Config) (r : Realm) (h : ReachableK cfg r) :
+theorem C04_meta_never_ends (cfg : Config) (r : Realm) (h : Realm.Reachable cfg r) :
     metaKey ∉ r.ending ∧ (∀ t ∈ r.tasks, ∀ mode, t ≠ .leave metaKey mode) ∧
     (∀ d ∈ r.deferred, d.1 ≠ metaKey) ∧ MetaSafe r := by
   have hm := h.metaSafe
@@ -319,14 +322,21 @@ theorem C04_meta_never_ends (cfg : Config) (r : Realm) (h : ReachableK cfg r) :
   subst e
   exact hm.tasks _ ht rfl
 
+/-- the former, restricted statement (histories that never use the meta session's key as a client key) is a
+    special case -/
+theorem C04_meta_never_ends_restricted (cfg : Config) (r : Realm) (h : ReachableK cfg r) :
+    metaKey ∉ r.ending ∧ (∀ t ∈ r.tasks, ∀ mode, t ≠ .leave metaKey mode) ∧
+    (∀ d ∈ r.deferred, d.1 ≠ metaKey) ∧ MetaSafe r :=
+  C04_meta_never_ends cfg r h.reachable
+
 /-- … kept by every single atomic action (so for every interleaving of the goroutines' actions, not only at
     quiescence): external inputs, internal tasks, timeouts, retry turns. -/
 theorem C04_meta_safe_preserved (r : Realm) (hm : MetaSafe r) :
-    (∀ op, OpK op → MetaSafe (r.stepOp op)) ∧ (∀ t, MTaskOk t → MetaSafe (r.runTask t)) ∧
+    (∀ op, MetaSafe (r.stepOp op)) ∧ (∀ t, MTaskOk t → MetaSafe (r.runTask t)) ∧
     (∀ t, MetaSafe (r.timerDue t)) ∧ (∀ x ∈ r.retries, MetaSafe (r.retryDue x)) ∧
-    (∀ op, OpK op → MetaSafe (r.step op).2) :=
-  ⟨fun op h => hm.stepOp op h, fun t h => hm.runTask t h, fun t => hm.timerDue t, fun _ hx => hm.retryDue hx,
-   fun op h => hm.step op h⟩
+    (∀ op, MetaSafe (r.step op).2) :=
+  ⟨fun op => hm.stepOp op, fun t h => hm.runTask t h, fun t => hm.timerDue t, fun _ hx => hm.retryDue hx,
+   fun op => hm.step op⟩
 
 example (r : Realm) (hm : MetaSafe r) (t : Task) (ht : t ∈ r.tasks) : MTaskOk t := hm.tasks t ht
 
@@ -339,22 +349,27 @@ example : let old : Session := { key := metaKey, details := [], roles := [], isL
 def C04_meta_never_ends_full : Prop :=
   ∀ (cfg : Config) (r : Realm), Realm.Reachable cfg r → metaKey ∉ r.ending ∧ ∀ t ∈ r.tasks, ∀ mode, t ≠ .leave metaKey mode
 
-/-- … is FALSE, for a reason that is an artefact of the model's input type and not a router behaviour:
-    `Op.drop k` is accepted for ANY key, also for one that names no attached client — e.g. the meta session's
-    own key, for which no transport exists that a client could lose.  `stepOp (.drop k)` then puts `k` into
-    `ending`, the queued `leave k` finds no client and changes nothing, and `k` stays in `ending` for ever
-    (harmless for a client key; for `metaKey` it contradicts the statement).  The harness never produces such
-    an input.  Recommended model change: `stepOp (.drop k)` should be the identity when `k` is not an
-    attached client (or `Reachable` should restrict the inputs as `ReachableK` does). -/
-theorem C04_meta_never_ends_full_fails : ¬ C04_meta_never_ends_full := by
-  intro h
-  have hs : (Realm.create {}).isSome = true := by decide +kernel
-  obtain ⟨r0, h0⟩ := Option.isSome_iff_exists.mp hs
-  obtain ⟨_, _, hc, _, _, ht, hr, _⟩ := create_rinv h0
-  obtain ⟨_, _, he⟩ := create_metaSafe h0
-  have h1 := (h {} _ (Realm.Reachable.step (.drop metaKey) (Realm.Reachable.init h0))).1
-  rw [(drop_nonclient r0 metaKey ht hr (by rw [hc]; intro c hc'; cases hc') (by rw [he]; intro hin; cases hin)).1] at h1
-  exact h1 (List.mem_append_right _ (List.mem_singleton.mpr rfl))
+/-- … holds (it was false while the model accepted `Op.drop k` for a key naming no attached client, e.g. the
+    meta session's own: `C04_meta_never_ends_full_fails`, now removed). -/
+theorem C04_meta_never_ends_full_holds : C04_meta_never_ends_full :=
+  fun cfg r h => ⟨(C04_meta_never_ends cfg r h).1, (C04_meta_never_ends cfg r h).2.1⟩
+
+/-- non-vacuity: the input that used to break it, on the initial realm, changes nothing -/
+example (r : Realm) (h : ∀ c ∈ r.clients, c.key ≠ metaKey) : r.stepOp (.drop metaKey) = r :=
+  stepOp_drop_absent h
+
+/-- SESSION KEYS OF A REACHABLE REALM (any history of inputs): no client is stored under the meta session's
+    key, the keys of the attached clients are pairwise distinct, every session marked as ending is attached
+    (`Nexus.L2.Realm.Reachable.clients_wf`); every session with a deferred departure, with input waiting in its
+    transport or with a testament bucket is an attached client, a handler in the retry loop belongs to an
+    attached client or the meta session (`Nexus.L2.Realm.Reachable.refs_wf`). -/
+theorem C04_reachable_keys (cfg : Config) (r : Realm) (h : Realm.Reachable cfg r) :
+    ((∀ c ∈ r.clients, c.key ≠ metaKey) ∧ (r.clients.map (·.key)).Nodup ∧
+      (∀ k ∈ r.ending, r.clients.any (·.key == k) = true)) ∧
+    ((∀ k ∈ r.ending, r.isClient k) ∧ (∀ d ∈ r.deferred, r.isClient d.1 ∧ r.busy d.1 = true) ∧
+      (∀ e ∈ r.inbox, r.isClient e.1) ∧ (∀ t ∈ r.testaments, r.isClient t.1) ∧
+      (∀ x ∈ r.retries, x.callee = metaKey ∨ r.isClient x.callee)) :=
+  ⟨h.clients_wf, h.refs_wf⟩
 
 /-! ## A protocol violation, as an input -/
 
@@ -446,8 +461,8 @@ theorem C04_isolation_step (r : Realm) (hi : RealmInv r) (hc : CtlInv r) (ht : r
     (r.step op).2.testaments = r.testaments.filter (fun t => t.1 != x) :=
   step_isolated hi hc ht hx hb he hop hp
 
-/-- … for every history of client-level inputs (`ReachableC`) whose panic flag is clean. -/
-theorem C04_isolation_step_reachable (cfg : Config) (r : Realm) (h : ReachableC cfg r) (hp0 : r.panic = none) (x : SessKey)
+/-- … for EVERY history of inputs (`Realm.Reachable`) whose panic flag is clean. -/
+theorem C04_isolation_step_reachable (cfg : Config) (r : Realm) (h : Realm.Reachable cfg r) (hp0 : r.panic = none) (x : SessKey)
     (hx : r.isClient x) (hb : r.busy x = false) (he : x ∉ r.ending) (op : Op) (hop : EndsInput r x op)
     (hp : (r.step op).2.panic = none) (k : SessKey) (hk : k ≠ x) :
     ((r.step op).2.isClient k ↔ r.isClient k) ∧
@@ -455,7 +470,7 @@ theorem C04_isolation_step_reachable (cfg : Config) (r : Realm) (h : ReachableC 
     (∀ id, calleeRel (r.step op).2.ds.d.regs id k ↔ calleeRel r.ds.d.regs id k) ∧
     (∀ c ∈ r.ds.d.calls, c.sess = k → (∀ v ∈ r.ds.d.invs, v.callId = c → v.callee ≠ x) → c ∈ (r.step op).2.ds.d.calls) ∧
     (∀ t ∈ r.testaments, t.1 = k → t ∈ (r.step op).2.testaments) := by
-  obtain ⟨_, g2, g3, g4, _, g6, g7⟩ := C04_isolation_step r h.reachable.inv.1 h.ctl (Reachable.quiescent h.reachable hp0)
+  obtain ⟨_, g2, g3, g4, _, g6, g7⟩ := C04_isolation_step r h.inv.1 h.ctl (Reachable.quiescent h hp0)
     x hx hb he op hop hp
   refine ⟨g2 k hk, fun id => ⟨fun h' => ((g3 k id).mp h').1, fun h' => (g3 k id).mpr ⟨h', hk⟩⟩,
     fun id => ⟨fun h' => ((g4 id k).mp h').1, fun h' => (g4 id k).mpr ⟨h', hk⟩⟩, ?_, ?_⟩
@@ -473,19 +488,7 @@ example : let r0 : Realm := (({} : Realm).stepOp (.join 1 false [] [] 8)).stepOp
     (r.step (.drop 1)).2.clients.map (·.key) = [2] := by
   intro r0 r
   have hi0 : RealmInv r0 := (stepOp_inv (stepOp_inv (RealmInv.empty []) _).1 _).1
-  have hc1 := ctlInv_empty.stepOp (.join 1 false [] [] 8)
-    ⟨by decide, (by intro c h; cases h), (by intro q h; cases h)⟩
-  have hc0 : CtlInv r0 := hc1.stepOp (.join 2 false [] [] 8) ⟨by decide, by
-    refine ⟨?_, ?_⟩
-    · intro c hcm; rw [stepOp_join] at hcm
-      have : c = { key := 1, details := [], roles := [], isLocal := false, cap := 8 } := by
-        simpa [Realm.addTasks] using hcm
-      rw [this]; decide
-    · intro q hq; rw [stepOp_join] at hq
-      have : q.1 = 1 := by
-        have : q = (1, []) := by simpa [Realm.addTasks] using hq
-        rw [this]
-      rw [this]; decide⟩
+  have hc0 : CtlInv r0 := (ctlInv_empty.stepOp' (.join 1 false [] [] 8)).stepOp' (.join 2 false [] [] 8)
   refine ⟨hi0.of_parts rfl hi0.binv hi0.dinv hi0.bmem hi0.dref hi0.callers hi0.retr (by intro t h; cases h) hi0.inb rfl,
     hc0.congr ⟨hc0.safe.noClient, hc0.safe.ending, (by intro t h; cases h), hc0.safe.deferred, hc0.safe.retries,
       hc0.safe.mkey, hc0.safe.metaPPT⟩ rfl rfl rfl rfl,
